@@ -223,6 +223,14 @@ class ExprMixin(object):
             return r if r is not None else num.const(1.0)
         if isinstance(b, int) and b < 0 and b >= -16:
             return num.div(num.const(1.0), self.float_pow(a, -b, spec))
+        bz = z3.simplify(self.ctx.to_float(b)) if not isinstance(b, int) else None
+        if bz is not None and num.name == "R" and z3.is_rational_value(bz) and bz.numerator_as_long() == 1 \
+                and bz.denominator_as_long() == 2:
+            # x ** 0.5 is math.sqrt for x >= 0 (CPython float_pow calls pow(); negative base would give a complex)
+            x = self.ctx.to_float(a)
+            if not spec:
+                self.oblige("no-complex-result:x**0.5-needs-x>=0", x >= 0, kind="safety")
+            return self.sqrt_value(x, spec)
         return self.call_ufunc_pow(self.ctx.to_float(a), self.ctx.to_float(b), spec)
 
     def float_divmod(self, x, w, spec):
@@ -804,7 +812,12 @@ class ExprMixin(object):
         kwargs = {}
         for kw in node.keywords:
             if kw.arg is None:
-                raise VerifError("**kwargs call")
+                from .values import KwargsV
+                v = self.ev(kw.value, spec)
+                if not isinstance(v, KwargsV):
+                    raise VerifError("**kwargs call with a non-parameter mapping")
+                kwargs.update(v)
+                continue
             kwargs[kw.arg] = self.ev(kw.value, spec)
         return self.call_value(f, args, kwargs, spec, node)
 
@@ -834,8 +847,38 @@ class ExprMixin(object):
             return list(v)
         if isinstance(v, RangeV) and all(isinstance(x, int) for x in (v.lo, v.hi, v.step)):
             return list(range(v.lo, v.hi, v.step))
+        if isinstance(v, RangeV) and isinstance(v.step, int):
+            lo = v.lo if isinstance(v.lo, int) else self.entailed_int(self.Z(v.lo))
+            hi = v.hi if isinstance(v.hi, int) else self.entailed_int(self.Z(v.hi))
+            if lo is not None and hi is not None and hi - lo <= 64:
+                return list(range(lo, hi, v.step))
         if isinstance(v, RefV) and v.ty.base.kind == "list":
             n = z3.simplify(self.ctx.list_len(v))
             if z3.is_int_value(n):
                 return [self.ctx.list_get(v, i) for i in range(n.as_long())]
+            k = self.entailed_int(n)
+            if k is not None and 0 <= k <= 64:
+                return [self.ctx.list_get(v, i) for i in range(k)]
         raise VerifError("iterable without a static length: %r" % (v,))
+
+    def entailed_int(self, term):
+        """The unique integer value the path condition forces ``term`` to have (e.g. a length fixed by a requires)."""
+        key = term.get_id()
+        cache = self.ctx.__dict__.setdefault("_entailed", {})
+        if key in cache and cache[key][0] == len(self.ctx.pc):
+            return cache[key][1]
+        from .core import _has_quantifier
+        s = z3.Solver()
+        s.set("timeout", 2000)
+        for p in self.ctx.pc:
+            if not _has_quantifier(p):
+                s.add(p)
+        val = None
+        if s.check() == z3.sat:
+            m = s.model().eval(term, model_completion=True)
+            if z3.is_int_value(m):
+                s.add(term != m)
+                if s.check() == z3.unsat:
+                    val = m.as_long()
+        cache[key] = (len(self.ctx.pc), val)
+        return val
